@@ -12,6 +12,10 @@
 //
 // ops:   tests N | fork T fail | w T eintr | w T err E | w T st HEX | inj T K |
 //        real T PHASE (ACTION ARG)+ | grp T G | cli | tick T USEC | run
+//   nproc0 : the case process gives up root (setgid/setuid 65534) and sets RLIMIT_NPROC to 0, so that the
+//            tree's REAL fork seam fails with EAGAIN for every real test of the registry; observation
+//            `forkfail supported` / `forkfail unsupported` (a probe fork() still succeeded: nothing is run,
+//            the rest of the case is skipped).  A real test whose fork failed prints `forked T realfail`.
 //   tick T USEC : while the parent waits for real test T, a POSIX interval timer delivers SIGUSR1 to the
 //                 runner every USEC microseconds through a handler installed WITHOUT SA_RESTART, so the REAL
 //                 waitpid seam (the tree's own PlatformSpecificWaitPid implementation, which this harness
@@ -32,6 +36,7 @@
 #include <fcntl.h>
 #include <sys/prctl.h>
 #include <sys/mman.h>
+#include <sys/resource.h>
 #include <time.h>
 #include "common.h"
 #include "CppUTest/TestHarness.h"
@@ -66,9 +71,10 @@ struct TestSpec {
     bool inRunner;
     long tickUsec;                   // > 0: periodic SIGUSR1 (no SA_RESTART) while the parent waits
     long ticks, elapsedMs;
+    bool realForkFailed;
     std::vector<std::string> envLines, failLines;
     std::string forkLine;
-    TestSpec() : real(false), forkFails(false), next(0), starved(false), phase(PH_NONE), inject(0), injected(0), pid(0), conts(0), group(0), inRunner(false), tickUsec(0), ticks(0), elapsedMs(0) {}
+    TestSpec() : real(false), forkFails(false), next(0), starved(false), phase(PH_NONE), inject(0), injected(0), pid(0), conts(0), group(0), inRunner(false), tickUsec(0), ticks(0), elapsedMs(0), realForkFailed(false) {}
 };
 
 std::vector<TestSpec> g_tests;
@@ -80,6 +86,7 @@ volatile sig_atomic_t g_deadline = 0;
 int g_marker_fd = -1;
 int g_console_fd = -1;               // cli mode: everything "printed to stdout" by parent and children
 bool g_cli = false;
+bool g_nproc0 = false;               // the case process can no longer fork (RLIMIT_NPROC 0, unprivileged)
 pid_t g_case_pid = 0;
 int (*g_tree_fork)(void) = 0;                    // the tree's own seam implementations
 int (*g_tree_waitpid)(int, int*, int) = 0;
@@ -166,9 +173,13 @@ extern "C" int seam_fork(void) {
     char buf[64];
     if (s.forkFails) { snprintf(buf, sizeof buf, "forked %d fail", g_cur); s.forkLine = buf; errno = EAGAIN; return -1; }
     if (!s.real) { snprintf(buf, sizeof buf, "forked %d ok", g_cur); s.forkLine = buf; return (int) getpid(); }
-    snprintf(buf, sizeof buf, "forked %d real", g_cur); s.forkLine = buf;
     fflush(stdout); fflush(stderr);
     pid_t p = g_tree_fork ? (pid_t) g_tree_fork() : fork();
+    int fork_errno = errno;
+    if (p != 0) {
+        snprintf(buf, sizeof buf, "forked %d %s", g_cur, p < 0 ? "realfail" : "real"); s.forkLine = buf;
+        if (p < 0) { s.realForkFailed = true; errno = fork_errno; return (int) p; }
+    }
     if (p == 0) {
         g_in_child = true;
         signal(SIGUSR1, SIG_IGN);
@@ -367,7 +378,7 @@ void run_registry() {
     sa.sa_handler = on_alarm; sa.sa_flags = SA_RESTART; sigaction(SIGALRM, &sa, 0);
     sa.sa_handler = on_cont; sigaction(SIGCONT, &sa, 0);
     const char* dl = getenv("VH_C11_DEADLINE");
-    alarm(dl ? (unsigned) atoi(dl) : 8);
+    alarm(dl ? (unsigned) atoi(dl) : g_nproc0 ? 2 : 8);    // nothing can be forked under nproc0: nothing takes long
 
     int (*savedFork)(void) = PlatformSpecificFork;
     int (*savedWait)(int, int*, int) = PlatformSpecificWaitPid;
@@ -440,7 +451,7 @@ void run_registry() {
         vh::emit("summary %s", errs && !ok ? "errors" : ok && !errs ? "ok" : "unclear");
         if (g_cli)
             for (size_t k = 0; k < n; k++)
-                if (g_tests[k].real && g_tests[k].inject == 0 && !g_tests[k].forkFails) {
+                if (g_tests[k].real && g_tests[k].inject == 0 && !g_tests[k].forkFails && !g_tests[k].realForkFailed) {
                     char needle[64]; snprintf(needle, sizeof needle, "childfailure-of-test-%lu-", (unsigned long) k);
                     vh::emit("childtext %lu %lu", (unsigned long) k, (unsigned long) count_occurrences(out, needle));
                 }
@@ -484,6 +495,7 @@ void run_case(const vh::Case& c) {
     g_case_pid = getpid();
     g_tests.clear();
     g_cli = false;
+    g_nproc0 = false;
     bool ran = false;
 #ifdef VH_C11_NOFORK
     vh::emit_op("nofork");      // this binary links the fork-less variant of UtestPlatform.cpp
@@ -523,6 +535,23 @@ void run_case(const vh::Case& c) {
         else if (w[0] == "tick" && w.size() == 3 && parse_t(w, t)) {
             char* end = 0; unsigned long us = strtoul(w[2].c_str(), &end, 10);
             if (end && !*end && us >= 100 && us <= 1000000) { g_tests[t].tickUsec = (long) us; vh::emit_op(c.raw[i]); continue; }
+        }
+        else if (w[0] == "nproc0" && w.size() == 1 && !g_tests.empty() && !g_nproc0) {
+            vh::emit_op("nproc0");
+            g_nproc0 = true;
+            fflush(stdout); fflush(stderr);
+            int a = setgid(65534), b = setuid(65534); (void) a; (void) b;
+            struct rlimit rl; rl.rlim_cur = 0; rl.rlim_max = 0;
+            setrlimit(RLIMIT_NPROC, &rl);
+            pid_t probe = fork();
+            if (probe == 0) _exit(0);
+            if (probe > 0) {
+                int st; while (waitpid(probe, &st, 0) < 0 && errno == EINTR) { }
+                vh::emit("forkfail unsupported");
+                ran = true;                       // the environment cannot make fork fail: skip the rest
+            }
+            else vh::emit("forkfail supported");
+            continue;
         }
         else if (w[0] == "cli" && w.size() == 1 && !g_tests.empty() && !g_cli) {
             g_cli = true; vh::emit_op("cli"); continue;
